@@ -111,6 +111,13 @@ def run(prop: str, tier: str) -> int:
                                           tmpdir=tmpdir, trace_id=tid))
         validate(rep, traces, "forced: 1 writer (nested) x 1 reader, every operation")
         traces = []
+        for oi, op in enumerate(L.OPS):      # the same on a TypedTree (the kind list belongs to the snapshot)
+            for k, h in enumerate(h1[oi::4] if quick else h1):
+                tid += 1
+                traces.append(L.run_trace(op, schedule=h, nested=True, nested_op=nested_ops[(k + oi) % len(nested_ops)],
+                                          tmpdir=tmpdir, trace_id=tid, typed=True))
+        validate(rep, traces, "forced: TypedTree, 1 writer (nested) x 1 reader, every operation")
+        traces = []
         for k, h in enumerate(h2):
             tid += 1
             rops = {"r1": L.OPS[k % len(L.OPS)], "r2": L.OPS[(k // 3 + 4) % len(L.OPS)]}
